@@ -71,6 +71,7 @@ def run_history(hist, init):
 
     viol = []
     _SHARED_INFOS = {}   # (see the 'many' operation)
+    _NEG = [1 if init == "warm-neg" else 0]   # pre-epoch timestamps handed out so far
     answers = 0
     hits = 0
     with World() as w:
@@ -159,9 +160,10 @@ def run_history(hist, init):
                     elif k == "wneg":
                         if os.path.exists(p):
                             old = open(p, "rb").read()
-                            cur_m = os.stat(p).st_mtime_ns
-                            # strictly decreasing: -1 s, -2 s, -3 s ... (an old timestamp is never restored)
-                            new_m = -1_000_000_000 if cur_m >= 0 else cur_m - 1_000_000_000
+                            # strictly decreasing over the whole history: -1 s, -2 s, -3 s ... (an old timestamp is
+                            # never restored, also not after a write with an ordinary timestamp in between)
+                            _NEG[0] += 1
+                            new_m = -_NEG[0] * 1_000_000_000
                             with open(p, "r+b") as fh:
                                 fh.write(bytes((b + 5) % 256 for b in old))
                             os.utime(p, ns=(new_m, new_m))
